@@ -674,6 +674,19 @@ func genLines(r *vlib.Rng, rich bool) [][2]string {
 	add("X-Keep-Me", "1")
 	add("x-keep-me", "")
 	add("X-KEEP-ME", "3")
+	// headers that tracing / logging layers like to read: repeated, and long (they are "other client headers" too)
+	long := func(n int) string { return strings.Repeat("0123456789abcdef", n/16+1)[:n] }
+	for _, n := range []string{"X-Request-ID", "X-Correlation-ID", "Traceparent", "X-Session-ID", "X-Trace-Id", "Idempotency-Key", "Referer", "Accept-Language", "X-Client-Version"} {
+		switch r.Intn(5) {
+		case 0:
+			add(n, long(vlib.Pick(r, []int{129, 184, 300, 1025, 4000})))
+		case 1:
+			add(n, "req-1-"+strconv.Itoa(r.Intn(1000)))
+			add(n, "req-2-"+strconv.Itoa(r.Intn(1000)))
+		case 2:
+			add(randCase(r, n), "v-"+strconv.Itoa(r.Intn(1000)))
+		}
+	}
 	switch r.Intn(4) {
 	case 0:
 	case 1:
